@@ -316,7 +316,7 @@ theorem viewOf_of_no_read (parse : UriParse) (h : Headers) (r : Req)
   have h4 := hno "X-Forwarded-Method" (by decide)
   have h5 := hno "X-Forwarded-Proto" (by decide)
   have h6 := hno "X-Forwarded-Uri" (by decide)
-  simp [viewOf, actualView, extractMethod, forwardedUri, clientIPs, peerIP, h1, h2, h3, h4, h5, h6, orElse_empty]
+  simp [viewOf, actualView, extractMethod, forwardedUri, uriOffer, clientIPs, peerIP, h1, h2, h3, h4, h5, h6, orElse_empty]
 
 /-- the view built from the canonicalised lines = the view the property demands of a trusted peer -/
 theorem viewOf_canonHeaders (parse : UriParse) (r : Req) :
